@@ -135,3 +135,32 @@ package internal
 //@   ensures [C10] one-job-per-element: nEnqueued == 1
 //@   ensures [C10] closure-captures-this-iterations-copies: perIterationCopies
 //@   ensures [C10,C01] end-hook-depends-on-exactly-the-element-jobs: endJobsRecorded
+
+// ---------------------------------------------------------------------------
+// Modifier mode (-genmode modifier), C20: for flows built from Params,
+// Results, Concurrency and plain Tasks the generated implementation function
+// and its task closures satisfy the clauses of the base-mode roles that fix
+// results and errors (there are no emitter events and no predicates in this
+// mode). Base-mode and modifier-mode code that satisfy the same clauses return
+// the same results and errors for the same inputs and task outcomes.
+
+//@ func role:modflow-task
+//@   ensures [C20] no-escaping-panic: !panics
+//@   ensures [C20] shape: shapeOK
+//@   ensures [C20] task-called-once-with-provider-values: ncalls == 1 && argsOK
+//@   ensures [C20] success-stores-results: implies(called && !upanic && uerr == nil, result == nil && outFromCall)
+//@   ensures [C20] error-returned-unchanged: implies(called && !upanic && uerr != nil, result == uerr)
+//@   ensures [C20] panic-is-panic-error: implies(upanic, isPanicErr(result, pv))
+
+//@ func role:modflow-wrapper
+//@   ensures [C20] one-job-per-task-of-the-directive: jobsMatchDirective
+//@   ensures [C20] one-result-store-per-results-argument: resultsMatchDirective
+//@   ensures [C20] shared-cells-have-a-single-writer-and-distinct-types: singleWriter && cellTypesDistinct
+//@   ensures [C20] every-reader-depends-on-the-writer-of-what-it-reads: implies(waitCalled, depsCoverReaders)
+//@   ensures [C20] jobs-depend-only-on-providers-of-their-inputs: implies(waitCalled, depsOnlyProviders)
+//@   ensures [C20] every-job-enqueued-once-and-wait-called: waitCalled && everyJobEnqueuedOnce
+//@   ensures [C20] directive-context-passed-to-enqueue-and-wait: directiveCtxEverywhere
+//@   ensures [C20] scheduler-params-are-the-hoisted-arguments: schedParamsOK
+//@   ensures [C20] success-writes-each-result-from-its-provider-cell: implies(waitNil, result == nil && nResultStores == nResultTargets && resultStoresFromCellOfPointeeType && !resultStoreBeforeWait)
+//@   ensures [C20] failure-leaves-results-untouched-and-returns-waits-error: implies(!waitNil, result == waitErr && nResultStores == 0)
+//@   ensures [C20] no-escaping-panic: !panics
